@@ -159,7 +159,7 @@ func (d *Client) Run(ctx context.Context) {
 func (d *Client) processMetrics(now float64, metrics *gostatsd.MetricMap, cb func(*timeSeries)) {
 	fl := flush{
 		ts: &timeSeries{
-			Series: make([]metric, 0, d.metricsPerBatch),
+			Series: make([]metric, 0, batchCapacity(d.metricsPerBatch)),
 		},
 		timestamp:        now,
 		flushIntervalSec: d.flushInterval.Seconds(),
